@@ -131,6 +131,38 @@ Example C07_argument_runs :
   fst (engine_execute_opts no_sigops (mkOpts (Some [x51]) (Some []) None None 9223372036854775807 0)) = VOk.
 Proof. vm_compute. repeat split; reflexivity. Qed.
 
+(** * The engine OBJECT over a sequence of calls (model/EngineHistory.v, proofs/EngineHistoryProofs.v)
+
+    One interpreter.Engine on which Execute is called again and again ([engine]: the fields of the Go struct - none,
+    C07_state_inventory below; [execute]: engine before the call -> engine after it and the result; [run_history]: the
+    engine threaded through a list of calls, each with the signature operations of its own transaction).  The n-th call
+    of any history returns what the same call returns on an engine nobody has used, and no call of any history
+    panics.  The history cases of the correspondence (corr/C07.v KHist) compare what ONE Go engine returned, call
+    after call, with [run_history]. *)
+From GoBT Require Import model.EngineHistory proofs.EngineHistoryProofs.
+
+Theorem C07_history_call_is_fresh_call : forall e calls n sc,
+  nth_error calls n = Some sc ->
+  nth_error (run_history e calls) n = Some (snd (execute new_engine sc)).
+Proof. exact history_call_is_fresh_call. Qed.
+Print Assumptions C07_history_call_is_fresh_call.
+
+Theorem C07_history_total : forall e calls,
+  Forall (fun sc => sigops_ok (fst sc)) calls ->
+  Forall (fun r => fst r <> VPanic) (run_history e calls).
+Proof. exact history_no_panic. Qed.
+Print Assumptions C07_history_total.
+
+(** non-vacuity: a history that alternates contexts around a signature opcode - with a transaction and previous
+    output (signature operations are a parameter; here the ones that fail), then without: refused, an error value *)
+Example C07_history_runs :
+  map fst (run_history new_engine
+    [(no_sigops, CProg (mkExecInput [x01; x01] [x01; x02; xac] 0 false false 0 0 0));
+     (no_sigops, CProg (mkExecInput [x51] [x51; x87] 0 true true 0 1 0));
+     (no_sigops, CProg (mkExecInput [x01; x01] [x01; x02; xac] 0 false false 0 0 0));
+     (no_sigops, COpts (mkOpts (Some [x51; xb2]) (Some [x51]) None None 0 0))]) = [VErr; VOk; VErr; VErr].
+Proof. vm_compute. reflexivity. Qed.
+
 (** State inventory (tie, translator part): every Go struct the model of this property represents has, in the
     source as it is NOW (gen/Structs.v, regenerated on every run), exactly the fields - names, types, order - the
     model was written against (model/StateInventory.v).  New state in these objects (a memoised digest, a cached
